@@ -50,3 +50,23 @@ pub trait SerializationBuffer {
         requires member_key::<C>(key, value).len() + 1 < usize::MAX;
 }
 
+
+
+// ---------------------------------------------------------------- readers
+/// R17: decoding a complete stored image (C12's Decode contract with an empty tail; `expect`: a stored image decodes)
+pub trait ByteSource { spec fn src(&self) -> Seq<u8>; }
+impl ByteSource for Vec<u8> { open spec fn src(&self) -> Seq<u8> { self@ } }
+impl ByteSource for &[u8] { open spec fn src(&self) -> Seq<u8> { self@ } }
+#[verifier::external_body]
+pub fn verif_postcard_decode<T: Wire, S: ByteSource>(source: S, plugin: &Plugin) -> (r: T)
+    ensures forall|v: T| source.src() == #[trigger] v.bytes() ==> r.bytes() == v.bytes()
+{ unimplemented!() }
+
+/// the committed content of the store as the backend reports it at the moment of a read (trusted backend)
+pub uninterp spec fn stored(ty: StableTypeID, kind: ColumnKind, key: Seq<u8>) -> Option<Seq<u8>>;
+
+/// interface stand-in for the reader half of `KvDatabase`
+pub trait KvDatabase {
+    fn get_wide_column<W: WideColumn, C: WideColumnValue<W>>(&self, key: &W::Key) -> Option<C>
+        requires wide_key::<W, C>(key).len() + 1 < usize::MAX;
+}
